@@ -17,6 +17,7 @@ func init() {
 		Explanation: "ClientID extraction. Decided: (D1) single funnel: the ClientID cache is written only by the pre-request hook with the value returned by clientIDFromDNSContext, the processing stage reads the ClientID only from that cache, and both sides key the cache by the proxy's unique request ID (never by client-chosen data); " +
 			"(D2) every non-empty ClientID returned by the two extractors is strings.ToLower(x) for an x that passed ValidateClientID on that path; (D3) protocol dispatch: the server-name extractor is reached only for HTTPS/TLS/QUIC and the path extractor only for HTTPS, every other protocol yields no ClientID; (D4) an extraction error leaves the hook only as a BeforeRequestError carrying a SERVFAIL reply, before any access check or cache write; " +
 			"(D5) shape guards: the server-name form requires an immediate-subdomain test of the client name against the configured name (strict mode: mismatch is an error), the DoH form requires the first segment to equal dns-query and exactly two segments. " +
+			"(D7) the client's server name reaches the ClientID extraction untransformed (no case mapping before validation); (D8) the Host header names the server only for requests that did not arrive over TLS. " +
 			"Not decided: correctness of the string surgery for look-alike suffixes, path cleaning and Host parsing (value-level).",
 		RuleText:    "Who-may-call enumeration over the module, provenance slices for cache key and value, CFG edge guards for the return shapes.",
 		Assumptions: []string{"netutil.IsImmediateSubdomain, netutil.ValidateHostnameLabel and path.Clean behave as documented (golibs/stdlib, trusted)", "dnsproxy assigns a unique RequestID per request"},
@@ -134,6 +135,7 @@ func runC16(c *Ctx) {
 	c16Extractors(c)
 	c16Dispatch(c)
 	c16CacheLifetime(c)
+	c16RawNames(c)
 }
 
 // c16CacheLifetime: D6 — the cache is keyed by the proxy's request IDs, so
@@ -434,4 +436,104 @@ func c16Dispatch(c *Ctx) {
 	}
 	r.Check(!found, "C16-D4", "extraction-error-becomes-SERVFAIL", p.FnPos(hb),
 		"an extraction error is answered with a SERVFAIL reply", "an extraction error can leave the hook without a SERVFAIL reply (the request would be dropped or attributed to nobody)")
+}
+
+// c16RawNames: D7 and D8.
+//
+// D7: the server names reach the ClientID extraction exactly as received: no
+// case mapping or other string transformation is applied before the label is
+// validated (Unicode case mapping folds non-ASCII runes such as U+212A to
+// ASCII letters, turning an invalid label into a valid ClientID).
+//
+// D8: for DoH the Host header is consulted only when the request did not come
+// over TLS (plain HTTP behind a proxy); a TLS connection's name is its server
+// name, even when that is empty.
+func c16RawNames(c *Ctx) {
+	p, r := c.P, c.R
+	fn := p.Fn("(*dnsforward.Server).clientIDFromDNSContext")
+	if fn == nil {
+		r.Undecided("C16-D7", "clientIDFromDNSContext", "-", "anchor not found")
+		return
+	}
+	transforms := map[string]bool{"strings.ToLower": true, "strings.ToUpper": true, "strings.ToTitle": true, "strings.Map": true, "strings.ToValidUTF8": true,
+		"strings.Title": true, "strings.TrimSpace": true, "strings.Trim": true, "strings.ReplaceAll": true, "strings.Replace": true, "bytes.ToLower": true,
+		"golang.org/x/net/idna.ToASCII": true, "golang.org/x/net/idna.ToUnicode": true}
+	stop := func(v ssa.Value) string {
+		if call, ok := v.(*ssa.Call); ok {
+			k := core.CalleeKey(call.Common())
+			if i := strings.IndexByte(k, '['); i > 0 {
+				k = k[:i]
+			}
+			if transforms[k] {
+				return k
+			}
+		}
+		return ""
+	}
+	n := 0
+	for _, call := range core.CallsTo(fn, "dnsforward.clientIDFromClientServerName") {
+		for i := 1; i < 2 && i < len(call.Common.Args); i++ { // the client's name; the configured one is the operator's own
+			n++
+			var bad []string
+			for _, o := range core.Origins(call.Arg(i), core.ProvOpts{Prog: p, Stop: stop}) {
+				if o.Kind == "stop" {
+					bad = append(bad, o.Key)
+				}
+			}
+			what := "configured server name"
+			if i == 1 {
+				what = "client's server name"
+			}
+			r.Check(len(bad) == 0, "C16-D7", fmt.Sprintf("server-name-untransformed:arg%d", i), p.InstrPos(call.Instr),
+				"the "+what+" reaches the ClientID extraction as received", fmt.Sprintf("the %s is transformed (%v) before the ClientID label is validated: a name that is not a valid host-name label can be folded into one", what, bad))
+		}
+	}
+	r.Floor("C16-D7", "server-name-arguments", n, 1)
+
+	hf := p.Fn("dnsforward.clientServerNameFromHTTP")
+	if hf == nil || len(hf.Params) == 0 {
+		r.Undecided("C16-D8", "clientServerNameFromHTTP", "-", "anchor not found")
+		return
+	}
+	isTLS := func(v ssa.Value) bool {
+		fr, _, ok := core.LoadedField(v)
+		return ok && fr.Type == "net/http.Request" && fr.Field == "TLS"
+	}
+	noTLS, nT := core.CondEdges(hf, func(at core.Atom) (bool, bool) {
+		if (at.Op == token.EQL || at.Op == token.NEQ) && core.IsNilConst(at.Other) && isTLS(core.ResolveCellLoad(at.Base)) {
+			return true, at.Op == token.EQL
+		}
+		return false, false
+	})
+	// every branch on the way to the Host header is the TLS test
+	hostUse := func(in ssa.Instruction) bool {
+		u, ok := in.(*ssa.UnOp)
+		if !ok {
+			return false
+		}
+		fr, _, ok := core.LoadedField(u)
+		return ok && fr.Type == "net/http.Request" && fr.Field == "Host"
+	}
+	off, ns := core.UnguardedSinks(hf, hostUse, noTLS)
+	// ... and the TLS test is not weakened by a second condition: the non-nil TLS edge leads to a return without reading Host
+	weakened := false
+	for _, b := range hf.Blocks {
+		iff, ok := b.Instrs[len(b.Instrs)-1].(*ssa.If)
+		if !ok {
+			continue
+		}
+		at := core.Decompose(iff.Cond)
+		if !((at.Op == token.EQL || at.Op == token.NEQ) && core.IsNilConst(at.Other) && isTLS(core.ResolveCellLoad(at.Base))) {
+			continue
+		}
+		tlsSucc := 0
+		if (at.Op == token.EQL) != at.Neg {
+			tlsSucc = 1
+		}
+		if found, _, _ := core.Reach(core.Query{From: []core.Point{{Block: b.Succs[tlsSucc], Idx: 0}}, Target: hostUse}); found {
+			weakened = true
+		}
+	}
+	r.Check(nT > 0 && ns > 0 && len(off) == 0 && !weakened, "C16-D8", "host-header-only-without-tls", p.FnPos(hf),
+		"the Host header names the server only for requests that did not arrive over TLS", "the Host header can be used for a request that arrived over TLS (e.g. one without SNI): the client chooses its own ClientID and passes the strict check", traceOf(p, off)...)
 }
